@@ -1,5 +1,6 @@
 (* Correspondence entry point for C09.
-   case   = VTup [VInt saver; VInt max_retries; parts; pre; wfaults; cfaults]
+   case   = VTup [VInt saver; VInt max_retries; parts; pre; wfaults; cfaults; VStr ext]
+     ext     = codec extension of the target path ('' | '.gz' | '.tar.gz' ...); file contents are compared decoded
      saver 0 = saveAsTextFile  : parts = VList [VList [VStr line; ...]; ...]
      saver 1 = saveAsPickleFile: parts = VList [VTup [VStr pickled_bytes; VList elements]; ...]
                                  (pickle is a black box: its output is handed to the model)
@@ -135,6 +136,7 @@ Variable A : Type.
 Variable render : A -> bytes.
 Variable decode : bytes -> res (list val).
 Variable sv : saver.
+Variable ext : list N.      (* codec extension of the target path ('' for a plain one) *)
 
 Definition has_marker (f : fs) : bool := match child f NMarker with Some _ => true | None => false end.
 
@@ -151,7 +153,7 @@ Definition observe (p : plan) (m : nat) (xs : list A) (f0 : fs) : val :=
          end
     else VNone in
   let names := match s_fs s1 with
-               | FDir ch => map (fun e => VStr (name_string (fst e))) (sort_entries ch)
+               | FDir ch => map (fun e => VStr (name_string (suffix_from_last_dot ext) (fst e))) (sort_entries ch)
                | _ => []
                end in
   VTup [enc_res r; enc_fs (s_fs s1); VList (map enc_fs (s_hist s1)); VInt (Z.of_nat (s_calls s1));
@@ -192,26 +194,26 @@ Fixpoint unpickle (tbl : list (bytes * list val)) (b : bytes) : res (list val) :
 
 Definition run (c : val) : val :=
   match c with
-  | VTup [VInt saver; VInt m; VList parts; pre; VList wfs; VList cfs] =>
+  | VTup [VInt saver; VInt m; VList parts; pre; VList wfs; VList cfs; VStr ext] =>
       match dec_fs pre, dec_wfaults wfs, dec_cfaults cfs with
       | Some f0, Some w, Some cfl =>
           let p := mk_plan w cfl in
           match saver with
           | 0 => match dec_text_parts parts with
-                 | Some xs => observe (list bytes) render_text decode_text_val SvText p (Z.to_nat m) xs f0
+                 | Some xs => observe (list bytes) render_text decode_text_val SvText ext p (Z.to_nat m) xs f0
                  | None => VBad
                  end
           | 1 => match dec_pickle_parts parts with
-                 | Some xs => observe (bytes * list val) fst (unpickle xs) SvPickle p (Z.to_nat m) xs f0
+                 | Some xs => observe (bytes * list val) fst (unpickle xs) SvPickle ext p (Z.to_nat m) xs f0
                  | None => VBad
                  end
           (* 2, 3: the same savers, the target given as a file:// URL (no difference for the model) *)
           | 2 => match dec_text_parts parts with
-                 | Some xs => observe (list bytes) render_text decode_text_val SvText p (Z.to_nat m) xs f0
+                 | Some xs => observe (list bytes) render_text decode_text_val SvText ext p (Z.to_nat m) xs f0
                  | None => VBad
                  end
           | 3 => match dec_pickle_parts parts with
-                 | Some xs => observe (bytes * list val) fst (unpickle xs) SvPickle p (Z.to_nat m) xs f0
+                 | Some xs => observe (bytes * list val) fst (unpickle xs) SvPickle ext p (Z.to_nat m) xs f0
                  | None => VBad
                  end
           | _ => VBad
